@@ -7,11 +7,11 @@ from harness import gens
 from harness.refserver import Server
 
 PROP = "C16"
-GEN = ["Handlers", "Wrappers"]
+GEN = ["Handlers", "Wrappers", "Subscripts"]
 VO = ["Properties/C16.vo", "Extract/D_Client.vo", "Extract/D_Hash.vo"]
 MODULE = "Properties.C16"
 THEOREMS = ["c16_pooled_refines", "c16_pooled_options", "c16_hash_single", "c16_retrying", "c16_pooled_forwarding",
-            "c16_pooled_construction", "c16_hash_forwarding"]
+            "c16_pooled_construction", "c16_hash_forwarding", "c16_subscripts"]
 DRIVER = "D_Client"
 TECHNIQUE = ("Coq proof: refinement of the PooledClient, single-server HashClient and RetryingClient models to the Client "
              "model / inner call; forwarding of every argument and constructor option proved over tables regenerated from "
@@ -188,7 +188,7 @@ def correspondence(ctx):
     n = 400 if ctx.quick else 3000
     for i in range(n):
         c = allc[i % len(allc)]
-        ops = [o for o in (gens.random_op(rng) for _ in range(rng.randrange(2, 7))) if o[0] not in (17, 18, 19)]
+        ops = [o for o in (gens.random_op(rng) for _ in range(rng.randrange(2, 7))) if o[0] not in (17, 18, 19, 23, 24)]
         if c["serde"] == 1:
             ops = gens.native_only(ops)
         sc, ch, rep = gens.build_case(rng, c, ops, fault_rate=0.0 if i % 3 else 0.08)
